@@ -69,6 +69,10 @@ CHECKS['C07'] = dict(level='other',
    text='Deductive: String.build is proved to choose the quoted form only for values without CR, LF or NUL, never for binary data, and to keep the value; LiteralString.__init__/write are proved to announce in {n} exactly the number of bytes written after the prefix, to write the string itself, to end the prefix with }CRLF and to mark binary literals with ~. Bounded (decides the statement on its scope): 58 hostile byte strings in every client-controlled position (mailbox names, keywords, ID parameters, section header names, junk commands, 19 header fields, 15 structured MIME/address forms) and 33 message shapes are echoed through every response form on the real server, and the complete byte stream of every connection is parsed by an independent strict RFC 3501 response grammar.',
    note='QuotedString.__bytes__ and AString.__bytes__ (regex based) and the ENVELOPE/BODYSTRUCTURE builders are covered by the bounded run only; 8-bit bytes inside quoted strings are counted, not rejected (the statement does not list them); two known findings (FETCH BINARY of an unknown Content-Transfer-Encoding / undecodable base64 cuts the response) are recorded, not repaired.',
    ref='6 C07')
+CHECKS['C18'] = dict(level='other',
+   text='Deductive: QuotedString.parse is proved to consume exactly its own bytes (the rest is the unconsumed suffix, the cached raw form is exactly the consumed bytes between quotes, no line break in the value) and LiteralString.parse to give the value of the announced length, taken from the n bytes after the header for {n+} and from the first n bytes of the continuation for {n}, with ~ as the binary marker and ParsingInterrupt only while the continuation is missing -- the two literal spellings denote the same value. Counter-models are replayed on CPython (with a search over small real inputs when the solver model of the ghost match sequence is not itself an input). Bounded: parse/serialise/parse round trips of QuotedString, LiteralString, String.build, AString, Atom, Number, SequenceSet (with RFC denotation), Flag, DateTime, Mailbox (independent modified-UTF-7 codec), FetchAttribute with delimiting suffixes; the assumed regex models against re; 9 command programs spelled atom/quoted/{n}/{n+} x 3 letter cases on fresh identical servers with identical responses and stored data required.',
+   note='The regexes enter the proofs through explicit assumed models (compared with re exhaustively up to length 6); value correctness of the unescaping loop, modified UTF-7, SequenceSet/Flag/DateTime parsers and the command-level equivalence are bounded only; "legal extra spacing" is not exercised (the RFC 3501 grammar has none).',
+   ref='6 C18')
 NOT_YET = {}
 def main():
     props = [json.loads(l) for l in open(os.path.join(HERE, 'properties.jsonl'))]
